@@ -31,7 +31,7 @@ PROPS = {
         'level': 'proof',
         'explanation': 'process_input (body verbatim) is verified with a ghost log of executed batches: the concatenation of the batches is exactly the sequence of arguments read (history theorem), every batch was accepted argument by argument by the limiter chain starting from the template state (all limits at once, no leakage between batches), each batch is maximal (the argument that opened the next batch was rejected by the chain after the previous one), empty input runs exactly once iff neither -r nor -I, ArgumentTooLarge only when the argument is rejected by a fresh builder; the three limiter try_arg bodies are verified against the abstract Lim view (fits/charge, all-or-nothing, out_of_chars) in unit xlimits.',
         'assumptions': [
-            'chain dispatch LimiterCursor::try_next / LimiterCollection::{try_arg, clone} (cyclic dyn, ~25 lines) assumed to be the conjunction over the chain with all-or-nothing update; checked bounded (chains <= 4) by the Kani harness in the thorough tier when available',
+            'chain dispatch LimiterCursor::try_next / LimiterCollection::{try_arg, clone} (cyclic dyn, ~25 lines) assumed to be the conjunction over the chain with all-or-nothing update; checked bounded on the three real limiters by the Kani harnesses kani::xargs::k_limiter_chain and k_limiter_charge (every run)',
             'CommandBuilder::execute: contract shared with unit xexec where the real body is verified',
         ],
         'not_decided': ['CommandBuilderOptions::new (initial arguments charged once to the template): adapter chain, see evidence of unit xlimits if present'],
@@ -159,7 +159,7 @@ DEPENDS = {
     'C08': ['C01'],
     'C03': ['C02'],                 # visit order presupposes the configured walk
     'C18': ['C02'],
-    'C07': ['C05', 'C04'],          # xargs -0 splitting; "delivers every matched path exactly once" presupposes the batching and its cost model
+    'C07': ['C05', 'C04', 'C18'],          # xargs -0 splitting; "delivers every matched path exactly once" presupposes the batching and its cost model
     'C20': ['C05'],
     'C06': ['C04'],
 }
